@@ -1301,20 +1301,23 @@ impl ApiEndpointVersions {
                 ApiEndpointVersions::From(earliest),
             ) => u.matches(Some(&earliest)),
 
+            // A "from-until" range is never empty (when both ends are equal
+            // it contains exactly that version), so it overlaps with "from"
+            // if it starts inside the "from" range or contains its start.
             (
                 ApiEndpointVersions::From(earliest),
-                ApiEndpointVersions::FromUntil(OrderedVersionPair {
-                    earliest: _,
-                    until,
+                r @ ApiEndpointVersions::FromUntil(OrderedVersionPair {
+                    earliest: range_earliest,
+                    until: _,
                 }),
-            ) => earliest < until,
+            ) => earliest <= range_earliest || r.matches(Some(&earliest)),
             (
-                ApiEndpointVersions::FromUntil(OrderedVersionPair {
-                    earliest: _,
-                    until,
+                r @ ApiEndpointVersions::FromUntil(OrderedVersionPair {
+                    earliest: range_earliest,
+                    until: _,
                 }),
                 ApiEndpointVersions::From(earliest),
-            ) => earliest < until,
+            ) => earliest <= range_earliest || r.matches(Some(&earliest)),
 
             (
                 u @ ApiEndpointVersions::Until(_),
